@@ -189,7 +189,22 @@ def template_bytes():
     return _TEMPLATE
 
 
+def forget_library_state():
+    """Every run of a scenario stands for a fresh process working on a file put back to a known content: whatever the
+    library memoises at module level about database files (functools caches of connections, ...) is dropped before the
+    file is rewritten underneath it. Inside a run nothing is reset, so what a failed call leaves behind in such a memo
+    is seen by the calls that follow it."""
+    import gc
+    import pygaps.parsing.sqlite as target
+    for obj in list(vars(target).values()):
+        clear = getattr(obj, "cache_clear", None)
+        if callable(clear):
+            clear()
+    gc.collect()
+
+
 def write_db(path, content):
+    forget_library_state()
     for suffix in ("-journal", "-wal", "-shm"):
         if os.path.exists(path + suffix):
             os.remove(path + suffix)
